@@ -52,10 +52,13 @@ func namesDistinctAfterMapping(tree *hx.Node) bool {
 }
 
 func genC08(t *rapid.T) isoCase {
-	shape := rapid.IntRange(0, 11).Draw(t, "shape")
+	shape := rapid.IntRange(0, 12).Draw(t, "shape")
 	o := hx.TreeOpts{MaxDepth: 3, MaxEntries: 6, MaxTotal: 40, MaxFile: 20000, EmptyBias: true, MTimes: true,
 		NameClass: []string{"portable", "portable", "portable", "long", "nonascii", "spaces", "casecollide", "mapcollide"}}
 	switch shape {
+	case 12:
+		o.NameClass = []string{"portable"}
+		o.MaxTotal = 12
 	case 0:
 		o.MaxDepth, o.MaxEntries, o.MaxTotal = 8, 3, 40
 	case 1:
@@ -88,6 +91,9 @@ func genC08(t *rapid.T) isoCase {
 	}
 	c := isoCase{Tree: tree, PS3: rapid.IntRange(0, 2).Draw(t, "ps3") == 0, PermSeed: rapid.Uint64().Draw(t, "perm"),
 		Route: rapid.SampledFrom([]string{"lib", "lib", "lib", "lib", "net", "makeiso"}).Draw(t, "route")}
+	if shape == 12 {
+		addFittedPathTable(t, tree, c.PS3)
+	}
 	if c.PS3 {
 		c.TitleID = genTitleID(t)
 		c.SFOExtra = genSFOExtra(t)
@@ -151,6 +157,7 @@ func runC08(c isoCase, st *hx.Stats) error {
 		return nil
 	}
 	defer d.cleanup()
+	labelPathTableFit(d.vol, st)
 	if len(ls) > 0 {
 		st.NT(fmt.Sprintf("%s|%v|%d|%s", c.Route, c.PS3, c.PermSeed, treeKey(c.Tree)))
 	}
@@ -168,6 +175,17 @@ func runC08(c isoCase, st *hx.Stats) error {
 		return hx.Failf("iso-"+probs[0].Clause, "%s", strings.Join(msgs, " || "))
 	}
 	return nil
+}
+
+// labelPathTableFit counts the volumes whose path table (as announced) ends exactly on a sector boundary.
+func labelPathTableFit(v *isoread.Vol, st *hx.Stats) {
+	for _, h := range []*isoread.Hier{v.Primary, v.Joliet} {
+		if h != nil && h.PTSize[0] > 0 && h.PTSize[0]%2048 == 0 {
+			st.Label("a path table fills its last sector exactly")
+			st.NT(fmt.Sprintf("ptfit|%d", h.PTSize[0]))
+			return
+		}
+	}
 }
 
 func TestC08Valid(t *testing.T) {
